@@ -423,7 +423,7 @@ pub fn run_batch(cfg: &BatchCfg, keep_first: usize) -> (Vec<RunSummary>, Agg) {
     let results: Mutex<(Vec<Option<RunSummary>>, Agg)> = Mutex::new(((0..jobs.len()).map(|_| None).collect(), Agg::default()));
     std::thread::scope(|s| {
         for _ in 0..cfg.threads.max(1) {
-            s.spawn(|| loop {
+            let _ = std::thread::Builder::new().stack_size(1 << 30).spawn_scoped(s, || loop {
                 let i = next.fetch_add(1, Ordering::SeqCst);
                 if i >= jobs.len() {
                     break;
@@ -641,7 +641,7 @@ pub fn sweep(traces: &[Trace], mon: &str, threads: usize, max_per_trace: usize) 
     let results: Mutex<Vec<Option<RunOutput>>> = Mutex::new((0..jobs.len()).map(|_| None).collect());
     std::thread::scope(|s| {
         for _ in 0..threads.max(1) {
-            s.spawn(|| loop {
+            let _ = std::thread::Builder::new().stack_size(1 << 30).spawn_scoped(s, || loop {
                 let i = next.fetch_add(1, Ordering::SeqCst);
                 if i >= jobs.len() {
                     break;
